@@ -39,7 +39,10 @@ def transcript_programs():
     progs.append(("prog", "exp", "k", ("uid", "seg"), ("if", ("cmp", ("id", "seg"), "in", ("tup", tuple(("lit", c) for c in "xyzwvu"))), ("ret", (("in", "1"), ("IN", "1"))),
                                                        ("else", ("ret", (("out", "1"), ("out", "1"), ("OUT", "2")))))))
     progs.append(("prog", "exp", "c", ("userId", "userid", "USERID"), multi))
-    progs.append(("prog", "exp", "dup", ("uid", "region", "uid"), multi))  # a splitter listed twice counts once
+    progs.append(("prog", "exp", "dup", ("uid", "region", "uid"), multi))
+    tup = ("tup", tuple(("lit", c) for c in ("x", "why", "zed", "w")))
+    progs.append(("prog", "exp", "t", ("uid", "seg"), ("if", ("cmp", ("id", "seg"), "==", tup), ("ret", (("eq", "1"), ("EQ", "1"))),
+                                                       ("elif", ("cmp", ("id", "seg"), "<", tup), ("ret", (("lt", "1"), ("LT", "1"))), ("else", ("ret", (("gt", "1"), ("GT", "2"))))))))  # a splitter listed twice counts once
     progs.append(("prog", "exp", None, ("b", "a", "b", "a"), multi))
     # non-ASCII text in every position of a program (salt, labels, operands, tuple members, under `not`): anything that prints
     # or logs a piece of the source meets the process's stdout / locale encoding
@@ -73,6 +76,8 @@ def compute():
             env = {s: (u if k == 0 else ids()[(j + 7 * k) % len(ids())]) for k, s in enumerate(split)}
             if "seg" in env:
                 env["seg"] = "x" if j % 2 else 2
+                if ast[2] == "t":
+                    env["seg"] = (("x", "why", "zed", "w"), ("x", "w", "why", "zed"), ("w", "x"), ("zed",))[j % 4]
             r = impl.call(b[1], env)
             rows.append(repr(r[:2]))
     return rows
